@@ -125,7 +125,7 @@ def r1(run, ctx):
                       'lower-cased name', m, d.ast, 'the name index is keyed by %s (not '
                       'lower-cased): lookups in another letter case miss the watcher'
                       % (norm_text(k) if k is not None else '?'))
-    run.count('R1', writers, 4, 'directory writer functions')
+    run.count('R1', writers, 3, 'directory writer functions')
 
 
 def r2(run, ctx):
@@ -179,7 +179,7 @@ def r3(run, ctx):
                       '%s inserts into the name index without a case-insensitive uniqueness '
                       'test: a section/name differing only in letter case overwrites the index '
                       'entry while the list keeps both watchers' % m.qualname)
-    run.count('R3', n, 3, 'insertions into _watchers_names')
+    run.count('R3', n, 2, 'insertions into _watchers_names')
 
 
 def r4(run, ctx):
